@@ -75,7 +75,7 @@ def run(ctx):
     ctx.add_samples([cases[len(cases) // 2]], n=1)
     recs = run_cases(ctx, binary, cases, "gen")
 
-    nrand = 3000 if quick else 60000
+    nrand = 2000 if quick else 60000
     rpath = ctx.path("c32_random.ndjson")
     ctx.run(binary, ["random", str(nrand), rpath])
     rcases = read_ndjson(rpath)
@@ -99,7 +99,7 @@ def run(ctx):
         if r["fired"]:
             k = (r["kind"], r["dir"])
             fired[k] = fired.get(k, 0) + 1
-    for kind in ("flip", "trunc", "insert", "split", "refrag", "dup", "drop", "close", "garbage", "stream", "shorten", "lengthen"):
+    for kind in ("flip", "trunc", "insert", "split", "refrag", "dup", "drop", "close", "garbage", "stream", "shorten", "lengthen", "zeros"):
         for d in (0, 1):
             if fired.get((kind, d), 0) < 10:
                 raise Machinery("fault kind %s in direction %d fired only %d times (vacuous)" % (kind, d, fired.get((kind, d), 0)))
